@@ -888,6 +888,32 @@ def make(params):
     return ConsumerScenario(params)
 
 
+def explore_chunked(ctx, jobs, max_tasks=60_000):
+    """explore.explore_many over `jobs` in several calls.  explore_many keeps the whole frontier of a level (one task tuple
+    with the scenario parameters per first/second-level deviation list) and every returned accumulator in the parent, and
+    the workers of the next level are forked from that parent; with thousands of scenarios that is gigabytes per worker.
+    Chunks are sized by a rough estimate of the number of second-level tasks a job produces."""
+    from vf import explore
+
+    def weight(bounds):
+        blist = bounds if isinstance(bounds, (list, tuple)) else [bounds or {}]
+        pairs = sum(1 for b in blist if sum(b.values()) >= 2)
+        return 5000 * pairs if pairs else 80
+
+    counts = {}
+    chunk, w = [], 0
+    for job in list(jobs) + [None]:
+        if job is not None and (not chunk or w + weight(job[3]) <= max_tasks):
+            chunk.append(job)
+            w += weight(job[3])
+            continue
+        if chunk:
+            counts.update(explore.explore_many(ctx, chunk))
+            ctx.count("scenarios", 0)
+        chunk, w = ([job], weight(job[3])) if job is not None else ([], 0)
+    return counts
+
+
 def family_sigs(ctx):
     """explore adds the full scenario name to every signature; the consumer checks run thousands of scenarios, so
     signatures keep only the family (the part before the first '/') and equal ones are merged."""
